@@ -329,6 +329,18 @@ func genAssets(rng *rand.Rand, nRand int) []lib.GenAsset {
 		a.Codec = "mp4a.40.5"
 		out = append(out, mk("ghe2048", lib.VideoRep("V300", 90000, 3000, vd), a))
 	}
+	{
+		// 10 MHz reference timescale (Smooth-Streaming style), the catalogue layout g_10mhz_tl with this harness's
+		// representation ids: refTime*audioTimescale needs more than 64 bits about 1.2 years after the start
+		vd := lib.UniformDurs(4, 20000000)
+		v := lib.VideoRep("V300", 10000000, 400000, vd)
+		a := lib.AudioRep("A48", 1024, lib.AudioDursFollowing(vd, 10000000, 48000, 1024, 0))
+		v.TimelineMPD, a.TimelineMPD = true, true
+		out = append(out, mk("g10mhz", v, a))
+		// another high timescale: 27 MHz, 3 x 1.92 s, AC-3 on its own grid
+		vd2 := lib.UniformDurs(3, 51840000)
+		out = append(out, mk("g27mhz", lib.VideoRep("V300", 27000000, 1080000, vd2), lib.AudioRep("A48", 1536, lib.FrameDurs(1536, 100, 80))))
+	}
 	for i := 0; i < nRand; i++ {
 		rate := lib.GenRates[rng.Intn(len(lib.GenRates))]
 		ts, sd := rate[0], rate[1]
@@ -658,6 +670,11 @@ func repSampleDur(dflt uint64, codec int, ts uint64) uint64 {
 		return 1536
 	}
 	return 0
+}
+
+// ceilMS: t/ts seconds in ms, rounded up, without leaving 64 bits for high timescales
+func ceilMS(t, ts uint64) int64 {
+	return int64(t/ts*1000 + (t%ts*1000+ts-1)/ts)
 }
 
 // refSeg: start and end of reference (video) segment n according to the VoD table (C01's S(n), E(n)).
@@ -1068,7 +1085,7 @@ func (r *run) fetchNone(as *assetState, in l1In, what string) {
 func (r *run) numberRun(as *assetState, prefix string, n0 int64, L int) {
 	c := r.c
 	_, eLast := as.refSeg(n0 + int64(L) - 1)
-	nowMS := int64((eLast*1000+as.R-1)/as.R) + int64(r.rng.Intn(1500))
+	nowMS := ceilMS(eLast, as.R) + int64(r.rng.Intn(1500))
 	t, err := as.getTmpl(prefix, nowMS)
 	if err != nil {
 		r.mpdFailure(as, as.mpdURL(prefix, nowMS), err)
@@ -1393,7 +1410,7 @@ func (r *run) periodsRun(as *assetState, prefix string, nowMS int64, periods int
 func (r *run) historyRun(as *assetState, n int64, variants []string) {
 	c := r.c
 	_, eLast := as.refSeg(n)
-	nowMS := int64((eLast*1000+as.R-1)/as.R) + 1500 + int64(r.rng.Intn(1000))
+	nowMS := ceilMS(eLast, as.R) + 1500 + int64(r.rng.Intn(1000))
 	t, err := as.getTmpl("", nowMS)
 	if err != nil {
 		if !as.d.Scratch {
